@@ -218,6 +218,8 @@ def run(ctx: RuleContext, p: Program) -> None:
     # the parse-side hooks decide by presence, not by truthiness: an empty narration is a narration
     ctx.try_rule(_presence.rule_presence_truth, p, 'PRESENCE-TRUTH')
     ctx.try_rule(rule_sep_lex, p, 'SEP-LEX')
+    from . import descsem as _dsx
+    ctx.try_rule(_dsx.rule_txn_sem, p, 'TXN-SEM')
     ctx.not_decided += ['that the printed text of a constructed model parses (runtime / lexer)',
                         'that the parsed result has equal fields and values (runtime)']
     ctx.assumptions += ['detach()/reattach() semantics as decided under C05', 'separator tokens are deep-copied (SEP-PROV under C03/C11)']
